@@ -106,7 +106,14 @@ impl World {
     /// Start (or restart) node `i` through the real `start_db`.
     pub fn boot(&self, i: usize, replicate: &str) -> u32 {
         let spec = self.nodes[i].clone();
-        let gen = with(|k| k.new_generation(spec.idx));
+        let gen = with(|k| {
+            // background-snapshot bookkeeping of the previous process generation: a tick that was requested
+            // or running when that process went away will never finish
+            let fired = k.ext.get(&format!("timer_fired_{}", spec.idx)).copied().unwrap_or(0);
+            k.ext.insert(format!("timer_started_{}", spec.idx), fired);
+            k.nodes[spec.idx as usize].declutter_kick = 0;
+            k.new_generation(spec.idx)
+        });
         let replicate = replicate.to_string();
         let _h: JoinHandle<()> = spawn_with_meta(
             Some(TaskMeta { node: Some(spec.idx), gen, name: "main".into(), ord: 0 }),
